@@ -7,6 +7,7 @@ import (
 	"errors"
 	"fmt"
 	"io"
+	"math"
 	"math/rand"
 	"net"
 	"sync/atomic"
@@ -756,7 +757,7 @@ func (p *protocolV2) REQ(client *clientV2, params [][]byte) ([]byte, error) {
 		return nil, protocol.NewFatalClientErr(err, "E_INVALID",
 			fmt.Sprintf("REQ could not parse timeout %s", params[2]))
 	}
-	timeoutDuration := time.Duration(timeoutMs) * time.Millisecond
+	timeoutDuration := millisToDuration(timeoutMs)
 
 	maxReqTimeout := p.nsqd.getOpts().MaxReqTimeout
 	clampedTimeout := timeoutDuration
@@ -918,7 +919,7 @@ func (p *protocolV2) DPUB(client *clientV2, params [][]byte) ([]byte, error) {
 		return nil, protocol.NewFatalClientErr(err, "E_INVALID",
 			fmt.Sprintf("DPUB could not parse timeout %s", params[2]))
 	}
-	timeoutDuration := time.Duration(timeoutMs) * time.Millisecond
+	timeoutDuration := millisToDuration(timeoutMs)
 
 	if timeoutDuration < 0 || timeoutDuration > p.nsqd.getOpts().MaxReqTimeout {
 		return nil, protocol.NewFatalClientErr(nil, "E_INVALID",
@@ -1048,6 +1049,15 @@ func readLen(r io.Reader, tmp []byte) (int32, error) {
 		return 0, err
 	}
 	return int32(binary.BigEndian.Uint32(tmp)), nil
+}
+
+// millisToDuration converts a millisecond count to a time.Duration,
+// saturating at the largest Duration instead of wrapping around
+func millisToDuration(ms uint64) time.Duration {
+	if ms > uint64(math.MaxInt64/int64(time.Millisecond)) {
+		return time.Duration(math.MaxInt64)
+	}
+	return time.Duration(ms) * time.Millisecond
 }
 
 func enforceTLSPolicy(client *clientV2, p *protocolV2, command []byte) error {
